@@ -247,6 +247,8 @@ def check(ck):
         ck.ob(R2, ini.key(None, "without-cluster"), ok4, "the cluster prefix is cut at the first %r" % d_cluster if ok4 else
               "qualified_name_without_cluster is not cut at the first %r" % d_cluster, ini.where())
 
+    from .c05 import check_escape_inverse
+    check_escape_inverse(ck, R2)
     # ---- R3 (a): handler coverage in from_qualified_name
     fq = FA(ck, FR + ".from_qualified_name")
     ff = FA(ck, FR + "._find_function")
